@@ -97,8 +97,8 @@ std::string snapPrefix(const Snap& b, const Snap& a, std::vector<int>& newCols)
 
 // ---------------------------------------------------------------- calculators
 const char* CALCS[] = {"kriging", "xvalid", "test_neigh", "simtub", "simtub_nc", "simfft", "migrate", "migrateMulti", "migrateByLocator",
-                       "statsOnGrid", "invdist", "nearest", "movave", "movmed", "lstsqr", "regression", "kribayes", "krigcell"};
-const int NCALCS = 18;
+                       "statsOnGrid", "invdist", "nearest", "movave", "movmed", "lstsqr", "regression", "kribayes", "krigcell", "simbayes"};
+const int NCALCS = 19;
 
 struct Call
 {
@@ -153,12 +153,12 @@ struct Invocation
 bool needsNeigh(const std::string& c)
 {
   return c == "kriging" || c == "xvalid" || c == "test_neigh" || c == "simtub" || c == "movave" || c == "movmed" || c == "lstsqr" ||
-         c == "kribayes" || c == "krigcell";
+         c == "kribayes" || c == "krigcell" || c == "simbayes";
 }
 bool needsModel(const std::string& c)
 {
   return c == "kriging" || c == "xvalid" || c == "test_neigh" || c == "simtub" || c == "simtub_nc" || c == "simfft" || c == "kribayes" ||
-         c == "krigcell";
+         c == "krigcell" || c == "simbayes";
 }
 // where results are written
 Db* targetOf(Invocation& iv)
@@ -344,6 +344,21 @@ int invoke(Invocation& iv, int& expectedNew)
     delete mb;
     return r;
   }
+  if (k == "simbayes")
+  {
+    int nbsimu = 1 + c.optA % 2;
+    int nbtuba = 10 + c.optB % 40;
+    if (iv.zeroCount) nbtuba = 0;
+    expectedNew = nvar * nbsimu;
+    // Bayesian simulation: prior on the coefficient of the universality condition
+    Model* mb = model ? model->clone() : nullptr;
+    if (mb) mb->setDriftIRF(0, 0);
+    MatrixSquareSymmetric pc(1);
+    pc.setValue(0, 0, 2.);
+    int r = simbayes(dbin, dbout, mb, neigh, nbsimu, c.seed, VectorDouble{10.}, pc, nbtuba);
+    delete mb;
+    return r;
+  }
   return -99;
 }
 
@@ -353,7 +368,7 @@ bool admissible(const std::string& k, const WorldSpec& w)
   if (k == "simfft") return w.outKind == 0 && w.nvar == 1 && w.nfex == 0 && w.ndim == 2; // 3-D FFT grids cost tens of seconds under ASan; dimension mismatch never returns (canary)
   if (k == "statsOnGrid") return w.outKind == 0;
   if (k == "krigcell") return false; // needs block extension columns: not built by this generator
-  if (k == "kribayes") return w.nfex == 0 && w.nvar == 1;
+  if (k == "kribayes" || k == "simbayes") return w.nfex == 0 && w.nvar == 1;
   if (k == "simtub_nc") return w.nfex == 0;
   if (k == "simtub") return w.nfex == 0 || w.fexInData; // with an external drift carried by both data bases
   if (k == "lstsqr" || k == "movave" || k == "movmed") return w.neighKind == 1;
@@ -726,7 +741,7 @@ struct CalcWorkload : Workload
       if (ill == 5 && !needsNeigh(k)) continue;
       if ((ill == 3 || ill == 4 || ill == 10) && !needsModel(k)) continue;
       if (ill == 7 && !needsNeigh(k)) continue;
-      if (ill == 8 && !(k == "simtub" || k == "simtub_nc" || k == "simfft")) continue;
+      if (ill == 8 && !(k == "simtub" || k == "simtub_nc" || k == "simfft" || k == "simbayes")) continue;
       if (ill == 11 && !(k == "migrate" || k == "migrateMulti" || k == "regression")) continue;
       if ((ill == 1 || ill == 9 || ill == 12) && (k == "simtub_nc" || k == "simfft")) continue;
       if (ill == 6 && (k == "xvalid" || k == "regression")) continue;
